@@ -161,6 +161,10 @@ impl DataWorld {
             Ok(reply) => {
                 let j = self.model.apply(db, args, &reply);
                 let obs = format!("{} -> {}", sig_args, resp::class(&reply));
+                if std::mem::take(&mut self.model.out_of_scope) {
+                    // not judged and not explored further (ok = false without a deviation prunes the branch)
+                    return (false, format!("{} (out of scope)", obs), resp::show(&reply), None);
+                }
                 if j.ok {
                     (true, obs, resp::show(&reply), None)
                 } else {
